@@ -142,6 +142,7 @@ def run(chk):
     n = 3000 if chk.thorough else 450
     cases = [gen_case(rng, chk.thorough) for _ in range(n)]
     bad = X.run_cases(chk, cases, 'c02')
+    shrunk = []
     opmix = {}
     for c in cases:
         for o in c['ops']:
@@ -149,6 +150,7 @@ def run(chk):
     chk.x_stats['correspondence'] = {'cases': len(cases), 'disagreements': len(bad), 'op_mix': opmix}
     for i in bad[:2]:
         small = X.shrink(chk, cases[i], 'c02')
+        shrunk.append((cases[i], small))
         chk.unshown_add(f"correspondence:case{i}", "model and implementation disagree; shrunk history: " + json.dumps(small, default=str)[:1500])
     seen = set()
     for c in [cases[i] for i in bad] + cases:
@@ -157,6 +159,8 @@ def run(chk):
         if not oracle_case(chk, c):
             break
     chk.cov['distinct_nontrivial'] += len(seen)
+    if shrunk and not chk.failures:
+        X.report_deviation(chk, shrunk[0][0], shrunk[0][1], 'dev')
     chk.sample(ser(cases[0]))
     chk.cov['rule'] = ("seeded random histories of read / assign (plain, falsy, None, zero- and one-argument callables) / delete / "
                        "re-evaluate / cache clear / register / remove / root evaluation / has_* on 1-3 instances of 1-3 classes with "
